@@ -866,6 +866,15 @@ func c08sumNoWrap(c *Ctx, r *Result, fn *ssa.Function, rule string) {
 			return
 		}
 		b, ok := bo.Type().Underlying().(*types.Basic)
+		if ok && (b.Kind() == types.Uint16 || b.Kind() == types.Uint8) {
+			// sums kept in a narrower type: the addition wraps modulo 2^16 (2^8) before the reduction modulo 65535
+			n++
+			_, ah := fb.rng(bo.X)
+			_, bh := fb.rng(bo.Y)
+			_, thi := fb.typeRange(bo.Type())
+			r.Check(ah+bh <= thi, rule, c.Name(fn)+"#accumulator-cannot-wrap", c.InstrPos(bo), "addition in "+b.Name()+" with operand maxima "+itoa64(ah)+" and "+itoa64(bh)+": the sum must stay below "+itoa64(thi+1)+" (a wrapped sum is not a Fletcher sum; 65535 and 65536 become the same residue)")
+			return
+		}
 		if !ok || b.Kind() != types.Uint32 {
 			return
 		}
@@ -884,7 +893,7 @@ func c08sumNoWrap(c *Ctx, r *Result, fn *ssa.Function, rule string) {
 		r.Viol(rule, cons, c.InstrPos(bo), "no bound below 2^32 established for this 32-bit accumulation (operand maxima "+itoa64(ah)+", "+itoa64(bh)+"): a wrapped sum is not a Fletcher sum")
 	})
 	if n < 2 {
-		r.Errorf("C08.4: calculateFletcher32 has %d 32-bit additions (expected at least 2)", n)
+		r.Errorf("C08.4: calculateFletcher32 has %d accumulator additions (expected at least 2)", n)
 	}
 }
 
@@ -1744,6 +1753,105 @@ func init() {
 		}
 		if !found {
 			r.Undec("C08.10", c.Name(fn)+"#inflate-limit-admits-every-encoded-chunk", c.Pos(fn.Pos()), "no io.LimitReader in applyDeflate")
+		}
+	})
+}
+
+// identityOnEmpty: fn returns its []byte parameter unchanged with a nil error on an edge where that parameter is known to
+// be empty (len(p) == 0).
+func identityOnEmpty(fn *ssa.Function) bool {
+	var data *ssa.Parameter
+	for _, p := range fn.Params {
+		if isByteSlice(p.Type()) {
+			data = p
+			break
+		}
+	}
+	if data == nil {
+		return false
+	}
+	for _, ret := range successReturns(fn) {
+		if len(ret.Results) < 1 || retOperand(ret, 0) != ssa.Value(data) {
+			continue
+		}
+		for _, b := range fn.Blocks {
+			ifi, ok := b.Instrs[len(b.Instrs)-1].(*ssa.If)
+			if !ok || b.Succs[0] == b.Succs[1] {
+				continue
+			}
+			bo, ok := ifi.Cond.(*ssa.BinOp)
+			if !ok {
+				continue
+			}
+			k, isK := constInt(bo.Y)
+			if !isK || k != 0 || lenOperand(bo.X) != ssa.Value(data) {
+				continue
+			}
+			var empty *ssa.BasicBlock
+			switch bo.Op {
+			case token.EQL, token.LEQ:
+				empty = b.Succs[0]
+			case token.NEQ, token.GTR:
+				empty = b.Succs[1]
+			default:
+				continue
+			}
+			if empty == ret.Block() || edgeDominates(b, empty, ret.Block()) {
+				return true
+			}
+		}
+	}
+	return false
+}
+
+func init() {
+	reg := registry["C08"]
+	reg.Meta.Rules["C08.11"] = "an empty chunk takes the same road on both sides: where a writer-side filter's Apply passes an empty input through unchanged, the reader-side decoder for that filter (and the filter's own Remove) does so too - otherwise the reader tries to decode zero bytes as a compressed stream"
+	reg.Rules = append(reg.Rules, func(c *Ctx, r *Result) {
+		pairs := [][3]string{
+			{"writer.GZIPFilter.Apply", "writer.GZIPFilter.Remove", "core.applyDeflate"},
+			{"writer.ShuffleFilter.Apply", "writer.ShuffleFilter.Remove", "core.applyShuffle"},
+			{"writer.LZFFilter.Apply", "writer.LZFFilter.Remove", "core.applyLZF"},
+			{"writer.Fletcher32Filter.Apply", "writer.Fletcher32Filter.Remove", "core.applyFletcher32"},
+			{"writer.BZIP2Filter.Apply", "writer.BZIP2Filter.Remove", "core.applyBZIP2"},
+		}
+		n := 0
+		for _, p := range pairs {
+			enc := c.FnOpt(p[0])
+			if enc == nil || enc.Blocks == nil {
+				continue
+			}
+			encPass := identityOnEmpty(enc)
+			for _, dn := range p[1:] {
+				dec := c.FnOpt(dn)
+				if dec == nil || dec.Blocks == nil {
+					continue
+				}
+				n++
+				if !encPass {
+					r.Hold("C08.11", p[0]+"~"+dn+"#empty-chunk-same-road", c.Pos(enc.Pos()), "the encoder encodes an empty input like any other")
+					continue
+				}
+				if identityOnEmpty(dec) {
+					r.Hold("C08.11", p[0]+"~"+dn+"#empty-chunk-same-road", c.Pos(dec.Pos()), "both sides pass an empty chunk through unchanged")
+					continue
+				}
+				// a decoder that opens a decompression stream fails on zero bytes; a plain loop over the bytes does nothing
+				streams := false
+				for _, site := range callsIn(dec) {
+					if g := site.Common().StaticCallee(); g != nil && g.Pkg != nil && strings.HasPrefix(g.Pkg.Pkg.Path(), "compress/") {
+						streams = true
+					}
+				}
+				if streams {
+					r.Viol("C08.11", p[0]+"~"+dn+"#empty-chunk-same-road", c.Pos(dec.Pos()), "the encoder returns an empty input unchanged, but the decoder opens a decompression stream on the stored bytes: zero bytes are not a valid stream")
+				} else {
+					r.Undec("C08.11", p[0]+"~"+dn+"#empty-chunk-same-road", c.Pos(dec.Pos()), "the encoder passes an empty input through; the decoder has no such shortcut and no decompression stream - what it does with zero bytes is not decided")
+				}
+			}
+		}
+		if n < 6 {
+			r.Errorf("C08.11: only %d encoder/decoder pairs resolved", n)
 		}
 	})
 }
